@@ -36,6 +36,18 @@ def handle (op : String) (j : Json) : Except String Json := do
     pure (Json.mkObj [("events", jStrs (r.events.map evStr)), ("closed", Json.bool r.closed),
       ("raised", match r.raised with | none => Json.null | some .exception => Json.str "exception" | some .base => Json.str "base"),
       ("ran", Json.num r.ran), ("good", Json.bool sh.good)])
+  | "c06.publishFault" =>
+    let sh ← shapeOfJson (← field j "shape")
+    let outside ← boolField j "publishOutside"
+    let k ← natField j "k"
+    let c ← clsOfJson (← field j "cls")
+    match c with
+    | none => throw "publish fault needs an exception class"
+    | some c =>
+      let r := runPublishFault sh outside k c
+      pure (Json.mkObj [("events", jStrs (r.events.map evStr)), ("closed", Json.bool r.closed),
+        ("raised", match r.raised with | none => Json.null | some .exception => Json.str "exception" | some .base => Json.str "base"),
+        ("ran", Json.num r.ran)])
   | _ => throw s!"c06: unknown op {op}"
 
 end SemantivaModel.Driver.C06
